@@ -2,13 +2,13 @@ import Rivaas.Model.BindAll
 import Rivaas.Model.BindNestJSON
 /-
 C04 — the nested-struct JSON shortcut in a collecting bind (`WithAllErrors`): the same first step of
-setNestedStructWithDepth, in front of the nested bind and its depth check. Core Lean only.
+setNestedStructWithDepth, behind its depth test and in front of the nested bind. Core Lean only.
 -/
 namespace Rivaas.Bind
 
 def fieldActionAllJ (P : Params) (cfg : Cfg) (nest : NestAll) (g : Getter) (depth : Nat) (f : FieldInfo) (cur : Val) :
     StepAll :=
-  if !isMapTy f.ty && isStructTy f.ty then
+  if !isMapTy f.ty && isStructTy f.ty && !decide (cfg.maxDepth < depth + 1) then
     match nestShortcut P (g.push f.tagName) with
     | some dv => .store (rewrap f.ty dv) []
     | none => fieldActionAll P cfg nest g depth f cur
